@@ -255,7 +255,7 @@ def observe(x, ids, depth=0):
         return ('f', x._name, tuple(observe(a, ids, depth + 1) for a in x._args))
     if isinstance(x, bool):
         return ('s', repr(x))
-    if isinstance(x, int):
+    if isinstance(x, (int, float)) or x is None:
         return ('i', x)
     if isinstance(x, str):
         return ('s', x)
@@ -273,7 +273,7 @@ def raw_state(v):
 # seeded generators (pure functions of the rng)
 
 ATOMS = ('a', 'b', 'ab', '1')
-INTS = (0, 1)
+INTS = (0, 1, None, 2.5)        # Python constants of kind 'i': ints, a float and None (all JSON-native)
 STRS = ('a', '1', 'x y')
 FUNCTORS = ('f', 'g', 'fg')
 
